@@ -280,6 +280,7 @@ def check_reentrant_new(ctx: Check, tree: Tree) -> None:
 
 def run(ctx: Check, tree: Tree) -> None:
     ctx.decided += [
+        'R-SHALLOW (arity): __getnewargs__ returns a tuple for classes of every arity',
         "values passed for non-SymPy fields inside the package are classes / functions / forwarded values, or instances of classes with value equality (R-ATTRIDENTITY); a state hook never hands out SymPy's cached hash (R-STATE)",
         "cls.__getnewargs__ installed by @unevaluated is shallow (R-SHALLOW) and returns every field in __new__'s positional order (R-COMPLETE)",
         "hand-written expression classes: the args created in __new__ are valid positional input to the same __new__, or pickle hooks are defined (R-NEWARGS)",
